@@ -20,6 +20,8 @@ TYPES = {
     "NUMBER(10,2)": ("NUMBER", 10, 2, None, "NUMBER(10,2)", 0),
     "NUMBER(38,10)": ("NUMBER", 38, 10, None, "NUMBER(38,10)", 0),
     "DECIMAL(5,0)": ("NUMBER", 5, 0, None, "NUMBER(5,0)", 0),
+    "NUMBER(10)": ("NUMBER", 10, 0, None, "NUMBER(10,0)", 0),
+    "NUMERIC(7)": ("NUMBER", 7, 0, None, "NUMBER(7,0)", 0),
     "FLOAT": ("FLOAT", None, None, None, "FLOAT", 1),
     "DOUBLE": ("FLOAT", None, None, None, "FLOAT", 1),
     "VARCHAR": ("TEXT", None, None, 16777216, "VARCHAR(16777216)", 2),
@@ -215,6 +217,18 @@ def run_history(case, ctx: Ctx) -> None:
                         ctx.fail("C09|info.views|differs", f"from {d}: {sorted(got)} model {sorted(want)}")
                 else:
                     ctx.fail(f"C09|info.views|raises|{o.etype}", f"{o}")
+                # the same view of the *other* database, read through a database-qualified name
+                for d2 in DBS:
+                    if d2 == d:
+                        continue
+                    o = run(cur, f"SELECT table_catalog, table_schema, table_name FROM {d2}.information_schema.views")
+                    if o.ok:
+                        got = {tuple(r) for r in o.rows}
+                        want = {k for k, v in cat.items() if k[0] == d2 and v.kind == "VIEW"}
+                        if got != want:
+                            ctx.fail("C09|info.views|differs|qualified-other-database", f"{d2}.information_schema.views read from {d}: {sorted(got)} model {sorted(want)}")
+                    else:
+                        ctx.fail(f"C09|info.views|raises|{o.etype}|qualified-other-database", f"{o}")
                 o = run(cur, "SELECT database_name FROM information_schema.databases")
                 if not o.ok or sorted(r[0] for r in o.rows) != DBS:
                     ctx.fail("C09|info.databases|differs", f"{o}")
